@@ -9,9 +9,9 @@ import os
 import random
 from . import mqtt as m
 
-STRS = [b'', b'a', b't/1', 'hé'.encode(), b'x' * 7]
+STRS = [b'', b'a', b't/1', 'hé'.encode(), b'x' * 7, '\ufeffb'.encode(), 'q\U0001d11e'.encode()]
 LONG = [127, 128]
-TOPICS = [b'a', b't/1', b'sensor/+/x', 'café'.encode()]
+TOPICS = [b'a', b't/1', b'sensor/+/x', 'café'.encode(), '\ufefft/1'.encode(), 't/\ufeff1'.encode()]     # (MQTT-1.5.4-3: a BOM is data)
 
 
 def pick_str(rng, big=False):
@@ -373,7 +373,7 @@ def rand_props(rng, legal, multi=(38,), p=0.4, pools=None):
             ps.append((pid, prop_value(rng, pid)))
     for pid in multi:
         if pid in legal or pid == 38:
-            for _ in range(rng.choice([0, 0, 1, 2])):
+            for _ in range(rng.choice([0, 0, 1, 2, 4])):
                 ps.append((pid, prop_value(rng, pid)))
     rng.shuffle(ps)
     return ps
@@ -401,6 +401,50 @@ def prop_value(rng, pid):
 
 
 CONNACK_PROPS = [17, 33, 36, 37, 39, 18, 34, 31, 40, 42, 19, 26, 28, 21, 22]   # 41 handled separately
+
+
+def user_property_order_scripts(prefix):
+    """several user properties with the same key and other keys in between: exposed in the order they were encoded"""
+    out = []
+    seqs = [[(b'a', b'1'), (b'b', b'2'), (b'a', b'3')], [(b'a', b'1'), (b'a', b'2'), (b'b', b'3'), (b'a', b'4'), (b'b', b'5')],
+            [(b'k', b''), (b'', b'v'), (b'k', b''), (b'', b'')]]
+    for i, sq in enumerate(seqs):
+        ps = [(38, kv) for kv in sq]
+        s = Sess(f'{prefix}-uporder-connack-{i}')
+        s.add('SETUP'); s.add('CONNECT cid=63'); s.add(m.feed(m.connack(0, 0, ps)))
+        out.append(s.script())
+        s = Sess(f'{prefix}-uporder-connack-refused-{i}')
+        s.add('SETUP'); s.add('CONNECT cid=63'); s.add(m.feed(m.connack(0, 0x87, ps)))
+        out.append(s.script())
+        s = Sess(f'{prefix}-uporder-auth-{i}')
+        s.add('SETUP'); s.add('CONNECT cid=63 am=6d'); s.add(m.feed(m.auth(0x18, [(21, b'm')] + ps)))
+        out.append(s.script())
+        for kind in ('pub0', 'pub1', 'puback', 'puback-err', 'pubrec-err', 'pubcomp-err', 'suback', 'unsuback', 'disconnect'):
+            s = Sess(f'{prefix}-uporder-{kind}-{i}')
+            s.connect()
+            if kind in ('pub0', 'pub1'):
+                op, sid = s.subscribed_stream()
+                s.feed(m.publish(b'a', b'x', int(kind[3]), 7 if kind == 'pub1' else None, 0, 0, [(11, sid)] + ps))
+            elif kind.startswith('puback'):
+                o, p2 = s.publish(1)
+                s.feed(m.ack('puback', p2, 0x97 if 'err' in kind else 0, ps))
+            elif kind == 'pubrec-err':
+                o, p2 = s.publish(2)
+                s.feed(m.ack('pubrec', p2, 0x97, ps))
+            elif kind == 'pubcomp-err':
+                o, p2 = s.publish(2)
+                s.feed(m.ack('pubrec', p2))
+                s.feed(m.ack('pubcomp', p2, 0x92, ps))
+            elif kind == 'suback':
+                o, p2, sid = s.subscribe()
+                s.feed(m.suback(p2, [0], ps))
+            elif kind == 'unsuback':
+                o, p2 = s.unsubscribe()
+                s.feed(m.unsuback(p2, [0], ps))
+            else:
+                s.feed(m.disconnect(0x8b, ps))
+            out.append(s.script())
+    return out
 
 
 def fam_C02(rng, tier):
@@ -864,6 +908,57 @@ def reason_sweep_scripts(prefix, tier):
             s.ping()
             s.feed(m.pingresp())
             out.append(s.script())
+    return out
+
+
+def submission_order_scripts(rng, tier, prefix):
+    """three and more requests already queued when the context task takes the first (issued from clones between two polls of
+    run()): the wire is the concatenation of their packets in submission order"""
+    out = []
+    for i in range(24 if tier == 'quick' else 400):
+        s = Sess(f'{prefix}-order-{i}', rng.choice(WR_POLICIES))
+        s.connect()
+        for h in (1, 2):
+            s.add(f'CLONE h0 h{h}')
+        for _ in range(rng.choice([1, 2])):
+            s.add('HOLD ctx')
+            for j in range(rng.choice([3, 4, 5, 8])):
+                k = rng.choice(['pub0', 'pub0', 'pub1', 'pub2', 'sub', 'unsub', 'ping'])
+                h = rng.choice([0, 1, 2])
+                if k.startswith('pub'):
+                    s.publish(int(k[3]), h, [('p', bytes([65 + j]))], rng.choice(TOPICS))
+                elif k == 'sub':
+                    s.subscribe([(rng.choice(TOPICS), '1000')], h)
+                elif k == 'unsub':
+                    s.unsubscribe([rng.choice(TOPICS)], h)
+                else:
+                    s.ping(h)
+            s.add('RELEASE ctx')
+        out.append(s.script())
+    return out
+
+
+def congruent_id_scripts(prefix, tier):
+    """two inbound QoS 2 exchanges whose identifiers coincide modulo a power of two: every sequence of deliveries and releases"""
+    out = []
+    pairs = [(3, 67), (1, 257), (5, 1029)] + ([] if tier == 'quick' else [(2, 65538 % 65536 + 65534), (9, 9 + 4096), (7, 7 + 32768)])
+    i = 0
+    for a, b in pairs:
+        syms = [('P', a), ('P', b), ('R', a), ('R', b)]
+        for k in range(2, 5 if tier == 'quick' else 6):
+            for seq in itertools.product(syms, repeat=k):
+                if seq[0][0] != 'P' or len({x[1] for x in seq if x[0] == 'P'}) < 2:
+                    continue
+                s = Sess(f'{prefix}-cong-{a}-{b}-{i}')
+                i += 1
+                s.connect()
+                op, sid = s.subscribed_stream()
+                for n, (t, pid) in enumerate(seq):
+                    if t == 'P':
+                        s.feed(m.publish(b'a', bytes([65 + n]), 2, pid, 0, 0, [(11, sid)]))
+                    else:
+                        s.feed(m.ack('pubrel', pid))
+                out.append(s.script())
     return out
 
 
@@ -1483,6 +1578,37 @@ def fam_C05(rng, tier):
             answer(young, bad=True)
             answer(old_op)
             out.append(s.script())
+    # the identifier counter wraps (65535 allocations): the operations around the wrap are outstanding together and the younger
+    # ones are acknowledged first, each with an error only it may see
+    for kind in (['pub1'] if q else ['pub1', 'pub2', 'sub', 'unsub']):
+        s = Sess(f'c05-wrap-{kind}')
+        s.connect()
+        s.add('CLONE h0 h1')
+        for _ in range(65530):
+            o, p = s.publish(1)
+            s.feed(m.ack('puback', p))
+            s.live_ops.pop(o, None)
+        pend = []
+        for j in range(9):
+            if kind == 'pub1':
+                o, p = s.publish(1, j % 2); pend.append((o, 'puback', p))
+            elif kind == 'pub2':
+                o, p = s.publish(2, j % 2); pend.append((o, 'pubrec', p))
+            elif kind == 'sub':
+                o, p, _ = s.subscribe(h=j % 2); pend.append((o, 'suback', p))
+            else:
+                o, p = s.unsubscribe(h=j % 2); pend.append((o, 'unsuback', p))
+        for o, k2, p in reversed(pend):
+            tag = [(31, b'for-' + str(o).encode())]
+            if k2 == 'puback':
+                s.feed(m.ack('puback', p, 0x97, tag))
+            elif k2 == 'pubrec':
+                s.feed(m.ack('pubrec', p, 0x97, tag))
+            elif k2 == 'suback':
+                s.feed(m.suback(p, [0x80], tag))
+            else:
+                s.feed(m.unsuback(p, [0x80], tag))
+        out.append(s.script())
     # exhaustive: every acknowledgement order for a fixed set of concurrent operations
     base = [('pub1', None), ('pub2', None), ('sub', None), ('unsub', None), ('ping', None), ('ping', None)]
     perms = list(itertools.permutations(range(5)))
@@ -1983,6 +2109,39 @@ def fam_C11(rng, tier):
         if i >= 40:
             s.add(f'DROP rsp{op - 40}')
     out.append(s.script())
+    # operations started BEFORE connect() (their requests wait in the queue with their identifiers already taken), between two
+    # connections, and after a resumed session whose exchanges are still open: all identifiers outstanding together differ
+    for variant in ('early', 'between', 'resumed'):
+        for k in (1, 3):
+            s = Sess(f'c11-{variant}-{k}')
+            s.add('SETUP')
+            for h in (1, 2):
+                s.add(f'CLONE h0 h{h}')
+            if variant == 'early':
+                for j in range(k):
+                    s.publish(1, j % 3)
+                    s.subscribe(h=(j + 1) % 3)
+            s.add('CONNECT cid=63 sei=100')
+            s.feed(m.connack(0, 0, []))
+            s.add('RUN')
+            for j in range(k):
+                s.publish(1, j % 3)
+                s.publish(2, (j + 1) % 3)
+                s.unsubscribe(h=(j + 2) % 3)
+            if variant != 'early':
+                s.add('FEEDEOF')
+                if variant == 'resumed':
+                    s.add('MARKDISC 1')
+                s.add('SETUP')
+                for j in range(k):
+                    s.publish(1, j % 3)        # started while no connection exists
+                s.add('CONNECT cid=63 sei=100')
+                s.feed(m.connack(1 if variant == 'resumed' else 0, 0, []))
+                s.add('RUN')
+                for j in range(k):
+                    s.publish(1, j % 3)
+                    s.subscribe(h=(j + 1) % 3)
+            out.append(s.script())
     # real OS threads: n clones of the handle start identifier-taking operations at the same time (first poll only), all of
     # them outstanding together. 'big-' scripts are judged by the oracle alone (the model is single-threaded: an atomic
     # `allocPid` step per operation; this script searches for a failing input where that assumption is wrong).
@@ -2156,11 +2315,17 @@ def fam_C13(rng, tier):
     # whatever the transport answers to flush / close (the client asks for neither) the user's DISCONNECT ends run() with Ok
     SIDE = ['wclose=err', 'wclose=pend', 'wflush=err', 'wflush=pend', 'wclose=pend wflush=pend wr=pendone']
     causes += [('udisc-side', k) for k in range(len(SIDE))]
+    # the transport fails exactly while the user's DISCONNECT is being written (after 0..3 of its bytes; CONNECT took 16)
+    causes += [('udisc-werr', k) for k in range(4)] + [('udisc-wzero', k) for k in range(4)]
     for cause, r in causes:
         for st in states():
             if tier == 'quick' and cause == 'sdisc' and r not in (0, 0x04, 0x81, 0x8b, 0xa2) and st.__name__ != 'idle':
                 continue
             cfg = 'werr=40' if cause == 'werr' else SIDE[r] if cause == 'udisc-side' else None
+            if cause in ('udisc-werr', 'udisc-wzero'):
+                if st.__name__ != 'idle':
+                    continue
+                cfg = f'{cause[6:]}={16 + r}'
             s = Sess(f'c13-{cause}-{r}-{st.__name__}-{i}', cfg)
             i += 1
             s.connect(connack_ps=[(39, 30)] if cause == 'udisc-refused' else [])
@@ -2171,8 +2336,8 @@ def fam_C13(rng, tier):
                 s.feed(m.disconnect(r, None, 'reason'))          # e0 01 rc: reason code without a property length
             elif cause == 'sdisc-empty':
                 s.feed(m.disconnect(0, None, 'empty'))
-            elif cause in ('udisc', 'udisc-side'):
-                s.disconnect([('r', r if cause == 'udisc' else 0)])
+            elif cause in ('udisc', 'udisc-side', 'udisc-werr', 'udisc-wzero'):
+                s.disconnect([('r', r if cause == 'udisc' else 0)] + ([('rs', b'bye')] if cause.startswith('udisc-w') else []))
                 s.publish(0)         # must not be written after the DISCONNECT
             elif cause == 'udisc-refused':
                 # the DISCONNECT exceeds the server's Maximum Packet Size: refused, nothing written — run() keeps serving,
@@ -2356,7 +2521,7 @@ def fam_C14(rng, tier):
     # a stream holding k unconsumed messages when the context goes: all k are yielded, then the stream ends. Variants: the
     # stream was polled before (registered) or never; taken before or only after the drop; messages in one read or one each;
     # part of the backlog consumed while the context was alive
-    for k in range(0, 6 if tier == 'quick' else 20):
+    for k in (list(range(0, 6)) + [31, 32, 33, 40, 64, 65, 130] if tier == 'quick' else list(range(0, 20)) + [31, 32, 33, 40, 63, 64, 65, 127, 128, 129, 300, 1000]):
         for variant in ['held', 'late-stream', 'one-read', 'partly']:
             s = Sess(f'c14-buf-{k}-{variant}')
             s.connect()
@@ -2366,7 +2531,7 @@ def fam_C14(rng, tier):
             if variant != 'late-stream':
                 s.add(f'STREAM {op}')
                 s.add(f'HOLD st{op}')
-            msgs = [m.publish(b'a', bytes([48 + j]), 0, None, 0, 0, [(11, sid)]) for j in range(k)]
+            msgs = [m.publish(b'a', bytes([48 + j % 64]), 0, None, 0, 0, [(11, sid)]) for j in range(k)]
             if variant == 'one-read':
                 s.feed(b''.join(msgs)) if msgs else None
             else:
@@ -2577,7 +2742,9 @@ def fam_C16(rng, tier):
                     ('sweepbytes', 'exec=sweep wr=pendone', False, True), ('wrone', 'exec=wake wr=one', False, False),
                     ('wrpend', 'exec=sweep wr=pend rd=fill', True, False),
                     # a new waker for every poll, stale ones dead: with spurious polls the waker changes while nothing happened
-                    ('freshwk', 'exec=wake wk=fresh', False, False), ('freshspur', 'exec=sweep wk=fresh wr=pend', True, False)]
+                    ('freshwk', 'exec=wake wk=fresh', False, False), ('freshspur', 'exec=sweep wk=fresh wr=pend', True, False),
+                    # (wake-only: a spurious poll replaces the waker, and nothing but the NEW waker can wake the task afterwards)
+                    ('freshpoll', 'exec=wake wk=fresh', True, False)]
         for vn, cfg, spurious, bytewise in variants:
             ls = ['CFG ' + cfg]
             tasks = ['ctx']
@@ -2690,7 +2857,7 @@ def fam_C17(rng, tier):
         return len(steps)
     n = hist(Sess('x'), 0)
     for upto in range(n + 1):
-        for sei, ago in [(0, 1), (100, 5), (100, 500), (4294967295, 100000), (None, 3), (50, 49), (50, 51)]:
+        for sei, ago in [(0, 1), (100, 5), (100, 500), (4294967295, 100000), (None, 3), (50, 49), (50, 51), (0, 0), (None, 0), (7, 0)]:
             if tier == 'quick' and upto % 2 and sei not in (100,):
                 continue
             s = Sess(f'c17-{upto}-{sei}-{ago}-{i}')
@@ -2941,9 +3108,10 @@ def with_extras(fam):
 
 
 FAMILIES = {
-    'C01': fam_C01, 'C02': fam_C02, 'C03': fam_C03,
+    'C01': lambda rng, tier: fam_C01(rng, tier) + submission_order_scripts(rng, tier, 'c01'),
+    'C02': lambda rng, tier: fam_C02(rng, tier) + user_property_order_scripts('c02'), 'C03': fam_C03,
     'C04': with_common(lambda rng, tier: fam_C04(rng, tier) + burst_scripts('c04', tier) + prop_by_type_scripts('c04') + padded_subid_scripts('c04') + reason_sweep_scripts('c04', tier), 'c04'), 'C05': with_common(fam_C05, 'c05'), 'C06': with_common(fam_C06, 'c06'),
-    'C07': with_common(lambda rng, tier: fam_C07(rng, tier) + padded_subid_scripts('c07'), 'c07'), 'C08': with_common(fam_C08, 'c08'), 'C09': with_common(fam_C09, 'c09'),
+    'C07': with_common(lambda rng, tier: fam_C07(rng, tier) + padded_subid_scripts('c07'), 'c07'), 'C08': with_common(fam_C08, 'c08'), 'C09': with_common(lambda rng, tier: fam_C09(rng, tier) + congruent_id_scripts('c09', tier), 'c09'),
     'C10': with_common(fam_C10, 'c10'), 'C11': with_common(fam_C11, 'c11', n_quick=15, n_thorough=300),
     'C12': with_common(fam_C12, 'c12'), 'C13': with_common(fam_C13, 'c13'),
     'C14': with_common(fam_C14, 'c14', tail=['DROPCTX', 'OP 9001 h0 PING', 'OP 9003 h0 PUBLISH q=1 t=61 p=' + '78' * 100, 'OP 9004 h0 SUBSCRIBE f=' + '61' * 100 + ':2000',
